@@ -792,7 +792,9 @@ func RecGen(o RecOpt) *rapid.Generator[ARec] {
 			case 1: // larger than one BGZF block
 				r.SeqLen = rapid.SampledFrom([]int{43490, 43500, 50000, 70001}).Draw(t, "d64k")
 			case 2:
-				r.NCigar = rapid.SampledFrom([]int{1000, 65535}).Draw(t, "ncig")
+				if !o.Valid { // derived ops are not consistent with the sequence
+					r.NCigar = rapid.SampledFrom([]int{1000, 65535}).Draw(t, "ncig")
+				}
 			}
 		}
 		if r.SeqLen > 0 || !o.Valid {
